@@ -62,7 +62,7 @@ def confirm_and_finish(seed, pid, name, patch, demo, meta, out, run_all, wt):
 			out['demo_patched_tail'] = (r1.stdout + r1.stderr)[-400:]
 			if '--no-tests' not in sys.argv:
 				t = subprocess.run([PY, '-m', 'pytest', '-q', '-p', 'no:cacheprovider', '--timeout=900', '--continue-on-collection-errors', 'tests'],
-				                   capture_output=True, text=True, env=env, cwd=wt, timeout=1800)
+				                   capture_output=True, text=True, env=env, cwd=wt, timeout=3600)
 				tail = [l for l in t.stdout.splitlines() if ' passed' in l or ' failed' in l][-1:]
 				out['suite'] = tail[0] if tail else t.stdout[-200:]
 	finally:
